@@ -173,6 +173,23 @@ var specs = map[string]*CheckSpec{
 		Stub:   append([]string{"atp server -> scripted server (reactive transcript, canonical CBOR)"}, commonStub...),
 		Assume: []string{"premise: the server stream ends, errors or garbles; runs in which only the client's writes failed while the server stream stayed intact are excluded and counted", "a success result is legitimate iff a well-formed work-done for that run ID is present in the bytes actually delivered, as decided by the reference decoder"},
 	},
+	"C10": {
+		ID: "C10", Flavour: "atp", Level: "exploration",
+		Quick: []Batch{
+			{Name: "c10.mutate", Count: 12000},
+			{Name: "c10.random", Count: 4000},
+			{Name: "c10.sweep", Count: 16, Extra: map[string]any{"stride": 16}},
+		},
+		Thorough: []Batch{
+			{Name: "c10.mutate", Count: 600000},
+			{Name: "c10.random", Count: 200000},
+			{Name: "c10.sweep", Count: 160, Extra: map[string]any{"stride": 1}},
+		},
+		Rule:   "each run = Client.ReadSchema against a scripted server whose hello carries a generated plugin description with 1-2 structural mutations (delete / retype / rename / duplicate / re-point / null / extreme) at tape-chosen nodes, or a grammar-free random tree; an accepted schema is then used as an engine would (Unserialize/Validate/Serialize/ValidateCompatibility on generated valid and invalid inputs for every step input, output and signal schema, SelfSerialize); sweep batches apply every mutation kind at every node (thorough) or every 6th node (quick) of a base description; distinct = distinct mutation set; non-trivial = at least one mutation applied",
+		Real:   []string{"atp client ReadSchema", "schema.UnserializeSchema and the whole schema package on the accepted result", "fxamacker/cbor"},
+		Stub:   append([]string{"atp server -> scripted hello sender"}, commonStub...),
+		Assume: []string{"the schedule dimension is degenerate (one engine goroutine); what is explored is the fault space of the hello message", "UnserializeScope called directly is not covered", "a CPU-bound hang would surface as a worker timeout (exit 2), not as a verdict"},
+	},
 	"C05": {
 		ID: "C05", Flavour: "atp", Level: "exploration",
 		Quick: []Batch{
@@ -482,8 +499,8 @@ func doCheck(id, tier string) int {
 			chunks = count/20 + 1
 		}
 		per := (count + chunks - 1) / chunks
-		if strings.Contains(b.Name, "crash") {
-			per = 1 // one base execution (with all its crash points) per unit of work
+		if strings.Contains(b.Name, "crash") || b.Name == "c10.sweep" {
+			per = 1 // one base execution (with all its fault points) per unit of work
 		}
 		for c := uint64(0); c*per < count; c++ {
 			from, to := c*per, (c+1)*per
